@@ -6,57 +6,75 @@ NOTE = ("Trusted: Lean 4.33 kernel; axioms propext / Classical.choice / Quot.sou
         "factgen + Wsp/Props/FactsTie.lean; the wspcheck differ and generators; the theorems are about the model and "
         "model = code is established on the runs made (counts in the evidence).")
 CHECKS = {
- "C01": ("For every ring geometry, base interval and wrap position (inside the 32-bit zone) Lean theorems show that a fetch returns, per interval, the value of "
-         "that interval's one slot iff the slot is stamped with exactly it (else NaN), that a write replaces exactly the slot of its interval and nothing else "
-         "in any archive, and that slots are shared exactly by intervals congruent mod N*S. Partial: the composition over whole histories is not one theorem. "
-         "Tied to the code by a differential run over histories with raw-slot, file-byte and fetch comparison after every step.",
-         "Lean 4 theorems (refinement of the two-branch wrap read to modular indexing; byte-level write frame) + correspondence check", "§5 C01"),
- "C02": ("The propagation step is characterised by Lean theorems for all inputs: which finer values count as known, when the coarser slot is stored "
-         "(non-empty known list and fraction test), what is stored (the configured aggregate, six methods stated outright), where (the slot of t only), and "
-         "that a skipped slot leaves the file untouched and stops the chain. Partial: composition over whole chains; full no-panic theorem.",
-         "Lean 4 theorems (case analysis of the propagation step over the ring/slot refinement) + raw-slot correspondence after every write", "§5 C02"),
- "C03": ("Acceptance, routing and the batch partition are Lean theorems over lists for all batches: the batch update is proved equal to per-archive writes of "
-         "exactly the right sub-lists of the stably sorted batch; stable sort uniqueness gives order independence; last point per slot wins.",
+ "C01": ("Lean theorems, inside the 32-bit clock zone: a fetch is the ring read (per interval the one slot, NaN unless stamped with exactly it); a write replaces exactly "
+         "its slot and nothing else in any archive; over whole histories each interval reads the last write to it or NaN if another lap took the slot - for any archive "
+         "under direct writes and, from Create through any mixture of single and batch updates with every propagation chain, for the finest archive; for every archive "
+         "after any such history no stale lap, foreign slot or foreign archive is ever returned (invariant carried through every step). Partial: the value of coarser "
+         "slots as one function of the whole history; page layout of filebuffer not modelled. Tied to the code by differential histories with raw-slot, byte and fetch comparison after every step.",
+         "Lean 4 theorems (ring refinement, write frame, history induction, global invariant) + correspondence check", "§5 C01"),
+ "C02": ("Lean theorems for all inputs: the consolidation step (which finer values count, when the coarser slot is stored, what and where, untouched otherwise), the six "
+         "aggregates stated outright, and the whole chain as a refinement - for a single update and for every batch the work-list loop equals the level-by-level chain "
+         "in which the next level's list is exactly the next archive's intervals of the slots that were stored, and a level that stores nothing ends the chain; no update panics. "
+         "The float32 xFilesFactor comparison is a named law validated on boundary bit patterns.",
+         "Lean 4 theorems (case analysis of the step, refinement of the work-list loop) + raw-slot correspondence after every write", "§5 C02"),
+ "C03": ("Acceptance, routing and the batch partition are Lean theorems over lists for all batches: the batch update equals per-archive writes of exactly the right sub-lists "
+         "of the stably sorted batch; stable-sort uniqueness gives order independence; the point supplied last wins among equal timestamps. Closed form of the acceptance test inside the clock zone.",
          "Lean 4 theorems (list induction: stable insertion sort, span of a sorted list, filter algebra) + correspondence check on shuffled batches", "§5 C03"),
- "C04": ("The fetch shape is computed by a function of (archive list, id, window, clock) only; failure, absence and the closed form of bounds/step/length "
-         "are Lean theorems (closed form inside the zone of 32-bit arithmetic), and the executed fetch is proved to have the planned shape whether or not "
-         "the archive was ever written. Tied to the code by differential fetches over boundary windows on empty and non-empty archives.",
+ "C04": ("The fetch shape is a function of (archive list, id, window, clock) only; failure, absence and the closed form of bounds/step/length are Lean theorems "
+         "(closed form inside the zone of 32-bit arithmetic; outside it the wrap-around is modelled faithfully and exercised), and the executed fetch has the planned shape whether or not the archive was ever written.",
          "Lean 4 theorems (case analysis + omega over faithful uint32/int32 arithmetic) + model/implementation correspondence check", "§5 C04"),
- "C05": ("The disk-vs-view state machine the driver runs: disk changes only at Sync, abandoning after any prefix leaves the last synced image, and every "
-         "library write is proved to land inside an archive region so header and length are fixed; the source's flush/sync/write call sites are regenerated "
-         "facts. Partial: OS durability is out of reach; filebuffer is modelled.",
-         "Lean 4 theorems (induction over operation lists; write-frame induction through the whole write path) + file-bytes-after-every-step correspondence", "§5 C05"),
- "C06": ("The byte layout (big-endian fields, header order, contiguous archives, 12-byte slots, total length, classic slot position) is proved of the encoder/"
-         "writer model; interoperation with go-whisper is validated three ways on the same bytes. Partial: no Lean model of the reference reader.",
-         "Lean 4 layout theorems + three-way differential check with go-whisper", "§5 C06"),
- "C07": ("validate decides WellFormed (ideal integers) although it computes in uint32/int32: a Lean theorem for all archive lists; "
-         "all four entry points are proved to accept only through that test, and the header codec round-trips every accepted header. "
-         "The float comparison for xFilesFactor is a named law validated against the code on all boundary bit patterns.",
+ "C05": ("The disk-vs-view state machine: disk changes only at Sync, abandoning after any prefix leaves the last synced image, every library write lands inside an archive "
+         "region so header and length are fixed; after Sync another Open returns the very handle - for created, re-created and opened files (what Open accepts is the encoding of what it returns); "
+         "flush/sync/write call sites are regenerated facts. Partial: OS durability is out of reach; filebuffer is modelled.",
+         "Lean 4 theorems (induction over operation lists; write frame through the whole write path; decode/encode inverse) + file-bytes-after-every-step correspondence", "§5 C05"),
+ "C06": ("The byte layout (big-endian fields, header order, contiguous archives, 12-byte slots, total length - also for a file re-created in place over an older one) is proved "
+         "of the writer model; a Lean model of the reference reader's fetch is proved to return what whispertool's fetch returns from the same bytes; interoperation with go-whisper is validated three ways on the same bytes.",
+         "Lean 4 layout theorems + reference-reader model equivalence + three-way differential check with go-whisper", "§5 C06"),
+ "C07": ("validate decides WellFormed (ideal integers) although it computes in uint32/int32: a Lean theorem for all archive lists; all four entry points accept only through "
+         "that test, and the header codec round-trips every accepted header. The float comparison for xFilesFactor is a named law validated against the code on boundary bit patterns.",
          "Lean 4 theorem (induction over the list, omega with products as atoms) + differential validation of all entry points", "§5 C07"),
- "C14": ("Round trip and framing of all eight wire types, and the WantLarger contract on every proper prefix, are Lean theorems about the codec "
-         "model for all objects, lengths and trailing bytes; the model is tied to the code by a differential run on generated objects and all their prefixes.",
+ "C14": ("Round trip and framing of all eight wire types, the WantLarger contract on every proper prefix, and the other direction for headers (what the decoder accepts is "
+         "exactly the encoding of what it returns) are Lean theorems for all objects, lengths and trailing bytes; tied to the code by differential runs on generated objects, all their prefixes, and used receivers.",
          "Lean 4 theorems (induction over lists, omega) + model/implementation correspondence check", "§5 C14"),
- "C15": ("Totality (no panic), sane WantLarger sizes and input-bounded allocation of every decoder and of Open are Lean theorems over all byte strings; "
-         "the damaged-handle clause is partial: exercised by a differential hostile-file stream in a sandboxed child where any panic/crash/hang/large "
-         "allocation of the real code is a violation.",
-         "Lean 4 theorems (case analysis, induction) + differential fuzzing of decoders and Open for model validation", "§5 C15"),
- "C19": ("parse(print d) = d for all 2^31 non-negative durations, exactness of every accepted duration string (digits x unit, no wrap) and the "
-         "listed rejections are Lean theorems about a model of leadingInt/ParseDuration/Duration.String with the int32 overflow tests as written; "
-         "method names by a complete table. Timestamps and retention lists are partial: an executable calendar/list model compared with the code.",
-         "Lean 4 theorems (strong induction on digit strings, omega) + exhaustive/boundary differential check of printers and parsers", "§5 C19"),
+ "C15": ("Totality (no panic), sane WantLarger sizes and input-bounded allocation of every decoder and of Open are Lean theorems over all byte strings; on any handle Open returns "
+         "no update, batch update or raw read panics, nor any fetch inside the clock zone, for every operation sequence with the file replaced by arbitrary bytes at any point. "
+         "Outside the zone exercised by a hostile-file stream in a sandboxed child where any panic/crash/hang/large allocation is a violation.",
+         "Lean 4 theorems (case analysis, induction over operation sequences) + differential fuzzing of decoders and Open", "§5 C15"),
+ "C19": ("parse(print d) = d for all durations, exactness of every accepted duration string (no wrap), the listed rejections, every 32-bit timestamp round-tripping through the "
+         "calendar model (kernel evaluation in chunks) and parse(print) of retention lists are Lean theorems about models of leadingInt/ParseDuration/String/ParseArchiveInfoList with the overflow tests as written; "
+         "method names by a complete table. Partial: that the strict timestamp parser accepts exactly what time.Parse accepts is validated, not proved.",
+         "Lean 4 theorems (strong induction on digit strings, omega, decide +kernel over complete tables) + exhaustive/boundary differential check", "§5 C19"),
 }
 
 MORE = {
- "C08": ("Frame and bookkeeping of copy are Lean theorems about the command model (only the destination changes, missing destination created, mismatch / no difference write nothing, written points are source points, glob order). The headline clause - destination equals source after success - is partial: asserted on the real code on every run by a post-check (diff clean right after copy; repeating writes nothing) on top of the model/implementation correspondence.", "Lean 4 theorems about the command model + correspondence check with property-level post-conditions on the real code", "§5 C08"),
- "C09": ("Exactness, cleanliness, symmetry and the missing-file / mismatch / glob verdicts are Lean theorems about the diff model for all series; tied to the code by differential runs of the real command with parsed output.", "Lean 4 theorems (list induction over DiffPoints) + correspondence check", "§5 C09"),
- "C10": ("Slot-wise NaN-skipping fold, identity on one file, irrelevance of holes and NaN-iff-all-NaN are Lean theorems for every float instance; tied to the code by differential runs of sum over generated item trees.", "Lean 4 theorems (fold lemmas over FOps) + correspondence check", "§5 C10"),
- "C11": ("sum-copy and sum-diff are proved to be the copy and diff cores applied to the sum, so C08-C10 transfer; the headline clause shares C08's partial and is asserted by a post-check (sum-diff clean right after sum-copy).", "Lean 4 corollaries + correspondence check with post-conditions", "§5 C11"),
- "C12": ("The client decodes exactly what the server's local call produced: Lean theorems from the codec round trips (C14); the transport is outside the model and is exercised by real HTTP round trips comparing local and remote observations for every read and glob.", "Lean 4 theorems (response codec round trip) + local/remote differential runs through a real server", "§5 C12"),
- "C13": ("Partial: a protocol model of the lock proved for every event sequence (no lost update, readers see a session boundary, blocked opens change nothing); the kernel's flock and GC timing are exercised by stress legs and lock probes after failed opens.", "Lean 4 invariant by induction over event sequences + concurrency stress (goroutines and processes) and lock probes", "§5 C13"),
- "C16": ("Decision-logic theorems about the command models (unopenable text-out, missing source, bad selection, mismatch are never success); no-panic over the whole product is partial and asserted on the real code on every run (panic, leaked lock, silent success are violations even when the model agrees).", "Lean 4 theorems about command models + fault-product correspondence runs with property-level assertions", "§5 C16"),
- "C17": ("Partial: interleaving theorem over atomic page reads (every schedule returns sequential results); data-race freedom is delegated to the Go race detector on the concurrency legs plus a regenerated structural fact.", "Lean 4 interleaving invariant + race-detector runs (shared handle, sum, parallel HTTP)", "§5 C17"),
- "C18": ("Completeness, soundness and order of view's records, the view-raw range filter and the stable sort are Lean theorems about the text model (formats from the source); view-subset-raw is asserted on the real code; number/time formatting is exercised by parsing the real output back.", "Lean 4 theorems about the record model + correspondence check on parsed output", "§5 C18"),
- "C20": ("Refusal of existing files, header/length as requested for all random points, and emptiness without fill are Lean theorems; the value clauses are decided on every run by an executable Lean specification evaluated on the file the real command wrote.", "Lean 4 theorems (random points as a parameter) + executable specification on the generated file", "§5 C20"),
+ "C08": ("Lean theorems about the command model: only the destination changes, a missing destination is created, mismatch / no difference write nothing, written points are source points; "
+         "per archive and for the whole run every interval of the window reads a value Equal to the source's afterwards (one archive selected too); and command to command - copy with NaN values included and all "
+         "archives, then diff of the same pair over the same window at the same clock, ends ok with no record. Hypotheses: window inside the clock zone, destination satisfying the invariant of files whispertool writes. "
+         "Also asserted on the real code on every run by post-checks.",
+         "Lean 4 theorems (ring-level copy theorem composed with the invariant, reopening and Diff) + correspondence check with post-conditions on the real code", "§5 C08"),
+ "C09": ("Exactness, cleanliness, symmetry and the missing-file / mismatch / glob verdicts (one differing file anywhere makes the run report a difference) are Lean theorems about the diff model for all series; "
+         "tied to the code by differential runs of the real command with parsed output.", "Lean 4 theorems (list induction over DiffPoints) + correspondence check", "§5 C09"),
+ "C10": ("Slot-wise NaN-skipping fold, identity on one file, irrelevance of holes, NaN-iff-all-NaN, the header being the first file's and a layout mismatch being an error are Lean theorems for every float instance; "
+         "tied to the code by differential runs of sum over generated item trees.", "Lean 4 theorems (fold lemmas over FOps) + correspondence check", "§5 C10"),
+ "C11": ("sum-copy and sum-diff are the copy and diff cores applied to the sum, so C08-C10 transfer: sum-copy then sum-diff is clean command-core to command (all archives), one differing item anywhere makes a "
+         "multi-item sum-diff report the difference. Also asserted by post-checks on the real code.", "Lean 4 corollaries + correspondence check with post-conditions", "§5 C11"),
+ "C12": ("The client decodes exactly what the server's local call produced (codec round trips, C14), composed with the commands: view, view-raw and sum through the server print exactly what the local command prints "
+         "(any file Open accepts, window inside the clock zone). The transport (HTTP, URL escaping) is outside the model and is exercised by real round trips comparing local and remote observations for every read and glob.",
+         "Lean 4 theorems (response codec round trip composed with the command model) + local/remote differential runs through a real server", "§5 C12"),
+ "C13": ("Partial: a protocol model of the lock proved for every event sequence (no lost update, readers see a session boundary, blocked opens change nothing, failed opens release); the kernel's flock and GC timing "
+         "are exercised by stress legs and lock probes after every kind of failed Open/Create.", "Lean 4 invariant by induction over event sequences + concurrency stress (goroutines and processes) and lock probes", "§5 C13"),
+ "C16": ("Decision-logic theorems about the command models (unopenable text-out, missing source, bad selection, mismatch are never success) and no command ends in a panic - every command, whatever bytes the files hold, "
+         "also in glob mode over any list of files or items. The text-out writer, flag parsing and HTTP are not modelled; the whole product subcommand x selection x window x fault is asserted on the real code on every run.",
+         "Lean 4 theorems about command models (totality by composition) + fault-product correspondence runs with property-level assertions", "§5 C16"),
+ "C17": ("Partial: interleaving theorem over atomic page reads (every schedule returns sequential results); data-race freedom is delegated to the Go race detector on the concurrency legs "
+         "(shared-handle fetches incl. archives of thousands of slots, sums, parallel requests) plus a regenerated structural fact.", "Lean 4 interleaving invariant + race-detector runs", "§5 C17"),
+ "C18": ("Completeness, soundness and order of view's records, the view-raw range filter and the stable sort are Lean theorems about the record model (formats from the source); view within view-raw is a theorem "
+         "command to command (all archives or one, sorted or not, window inside the clock zone); number/time formatting is exercised by parsing the real output back.",
+         "Lean 4 theorems about the record model composed with the ring theorems + correspondence check on parsed output", "§5 C18"),
+ "C20": ("Refusal of existing files, header/length as requested, emptiness without fill, and - on a Lean model of the points generator with the random stream as a parameter - the value clauses: per archive one point per step, "
+         "every value at most max*S_k/S_0, every coarser point at or after the first finer point the sum of the finer points of its slot. The generator model is tied to cmd/generate.go by replaying random streams "
+         "through the verif hook; the real command's output is also judged by an executable specification.",
+         "Lean 4 theorems (random stream as a parameter) + replayed-stream correspondence through a build-tag hook + executable specification on the generated file", "§5 C20"),
 }
 CHECKS.update(MORE)
 PENDING = {}
